@@ -187,6 +187,10 @@ def direct(case):
     d['ntemps'] = len(temps)
     if cfg is None and d['lazy']:
         d['problems'].append('accepted a non-trivial lazy construct: %s' % d['lazy'])
+    else:
+        comps = [k for k in d['lazy'] if k in ('ListComp', 'SetComp', 'DictComp', 'GeneratorExp')]
+        if comps:       # comprehensions are documented as unsupported whatever the configuration
+            d['problems'].append('accepted a comprehension (never supported): %s' % comps)
     d['py_orig'], d['py_anf'] = [], []
     for a in G.INPUTS:
         o1 = G.run_python(copy.deepcopy(fn), a)
